@@ -194,6 +194,22 @@ def gen_history(rng, cfg=None):
                 first_edits = first_edits + [rng.choice([{'m': 'rewrite', 'p': full, 'c': 'changed since ' + GT.rand_content(rng)},
                                                          {'m': 'delete', 'p': full}])]
             break
+    # targeted prior state: ONE path carries a file entry and an IGNORE entry - the IGNORE in a Manifest above the one with
+    # the file entry, or later in the same Manifest.  Whatever an update does with such a contradiction (refusing is fine), it
+    # does not own the IGNORE line
+    if prior != 'absent' and manifests and rng.random() < cfg.get('p_ignore_clash', 0.05):
+        cands_ = [(m, e) for m in manifests for e in m['entries']
+                  if e.get('tag') in ('DATA', 'EBUILD', 'MISC') and 'raw' not in e and not e.get('path', '').startswith('.')]
+        if cands_:
+            m, e = rng.choice(cands_)
+            full_ = os.path.normpath(os.path.join(os.path.dirname(m['p']), e['path']))
+            above_ = [m2 for m2 in manifests if m2 is not m and (os.path.dirname(m2['p']) == '' or full_.startswith(os.path.dirname(m2['p']) + '/'))
+                      and len(os.path.dirname(m2['p'])) < len(os.path.dirname(m['p']))]
+            if above_ and rng.random() < 0.7:
+                m2 = rng.choice(above_)
+                m2['entries'] = m2['entries'] + [{'tag': 'IGNORE', 'path': os.path.relpath(full_, os.path.dirname(m2['p']) or '.')}]
+            else:
+                m['entries'] = m['entries'] + [{'tag': 'IGNORE', 'path': e['path']}]
     # targeted prior state: one file listed in a sub-Manifest AND in a Manifest above it, the file
     # edited in place (same size), and only one of the two Manifests refreshed afterwards
     special_hashes = None
